@@ -143,7 +143,7 @@ class RandomPolicy(BaseScheduler):
     """Arbitrary well-typed decisions (seeded): place now / in the future / on a pool
     that may not fit, leave unplaced, or cancel. Exercises every handler path."""
 
-    def __init__(self, rng, lookahead=0, retract=False, release_taskgraphs=False, cancel_prob=0.05, batch_prob=0.0, delays=None, runtimes=None, profile_prob=0.0, _flags=None):
+    def __init__(self, rng, lookahead=0, retract=False, release_taskgraphs=False, cancel_prob=0.05, batch_prob=0.0, delays=None, runtimes=None, profile_prob=0.0, dup_prob=0.0, dup_rng=None, _flags=None):
         super().__init__(
             preemptive=False,
             runtime=et(0),
@@ -164,6 +164,13 @@ class RandomPolicy(BaseScheduler):
         # pool / worker, evict a profile this policy loaded earlier
         self._profile_prob = profile_prob
         self._loaded = []
+        # duplicate placements: with this probability a task that has just been placed gets a SECOND decision in the
+        # same answer (`Placements` is keyed by placement id, so this is legal input): on another pool / at another
+        # time (the simulator then re-times the cached TASK_PLACEMENT event object, which is still in the local
+        # list of `__handle_scheduler_finish`), or unplaced, or a cancellation. Own generator: the main stream of
+        # the policy is not shifted.
+        self._dup_prob = dup_prob
+        self._dup_rng = dup_rng if dup_rng is not None else _random.Random(0)
 
     def schedule(self, sim_time, workload, worker_pools):
         tasks = workload.get_schedulable_tasks(
@@ -214,6 +221,25 @@ class RandomPolicy(BaseScheduler):
                         execution_strategy=strat,
                     )
                 )
+                if self._dup_prob and self._dup_rng.random() < self._dup_prob:
+                    d = self._dup_rng
+                    r2 = d.random()
+                    if r2 < 0.15 and t.state in (TaskState.VIRTUAL, TaskState.RELEASED, TaskState.SCHEDULED):
+                        out.append(Placement.create_task_cancellation(task=t))
+                    elif r2 < 0.25:
+                        out.append(Placement.create_task_placement(task=t))
+                    else:
+                        others = [q for q in pools if q is not pool] or pools
+                        pool2 = d.choice(others if d.random() < 0.8 else pools)
+                        out.append(
+                            Placement.create_task_placement(
+                                task=t,
+                                placement_time=sim_time + et(took + d.choice(self._delays)),
+                                worker_pool_id=pool2.id,
+                                worker_id=d.choice(pool2.workers).id if d.random() < 0.2 else None,
+                                execution_strategy=d.choice(list(t.available_execution_strategies)),
+                            )
+                        )
         if self._profile_prob and self._rng.random() < self._profile_prob:
             delay = self._rng.choice(self._delays)
             when = sim_time + et(took)   # profile decisions take effect right away (no decision is in flight when the next one is taken)
@@ -365,6 +391,8 @@ class Run:
                 delays=pol.get("delays"),
                 runtimes=pol.get("runtimes"),
                 profile_prob=pol.get("profile_prob", 0.0),
+                dup_prob=pol.get("dup_prob", 0.0),
+                dup_rng=_random.Random(self.seed * 7919 + 29),
                 _flags=self.flags,
             )
         elif pol["name"] in PLANNERS:
